@@ -1,8 +1,6 @@
 // ---- A6: serde_json / str::from_utf8 / flate2 stand-ins (TRUSTED) -------------------------------------------------
 // The JSON text itself is outside reach (serde derive macros); what the proofs use is that encoding and decoding
 // are inverse, that encoding never fails, and that a string is at most isize::MAX bytes long.
-pub assume_specification<T, A: std::alloc::Allocator>[ <std::vec::Vec<T, A> as std::convert::AsRef<[T]>>::as_ref ](v: &std::vec::Vec<T, A>) -> (r: &[T])
-    ensures r@ == v@;
 
 pub assume_specification[ std::string::String::len ](s: &std::string::String) -> (r: usize)
     ensures r <= isize::MAX;
